@@ -912,6 +912,24 @@ func (env *specEnv) call(x *Expr) (Val, error) {
 		}
 		k, _ := strconv.Atoi(vs[0].T[0].S)
 		return env.callArg(k)
+	case "isType":
+		// isType(x, T): the dynamic type of interface value x is exactly T
+		if len(args) != 2 {
+			return Val{}, fmt.Errorf("isType(x, T)")
+		}
+		v, err := env.eval(args[0])
+		if err != nil {
+			return Val{}, err
+		}
+		t, err := env.parseType(strings.ReplaceAll(args[1].String(), " ", ""))
+		if err != nil {
+			return Val{}, err
+		}
+		f := e.flat(v)
+		if len(f) != 2 {
+			return Val{}, fmt.Errorf("isType on non-interface")
+		}
+		return boolVal(eq(f[0], intLit(int64(e.typeTag(t))))), nil
 	case "entry":
 		// entry(e): e evaluated in the state in which the current loop was entered
 		if env.loop == nil || env.loop.pre == nil || len(args) != 1 {
@@ -1283,6 +1301,22 @@ func (env *specEnv) applySpecFunc(sf *SpecFunc, args []Val) (Val, error) {
 	if len(args) != len(sf.Params) {
 		return Val{}, fmt.Errorf("%s: %d arguments, want %d", sf.Name, len(args), len(sf.Params))
 	}
+	if sf.Ghost {
+		key, ok := ghostKey(args[0])
+		if !ok {
+			return Val{}, fmt.Errorf("ghost %s: argument is not a reference", sf.Name)
+		}
+		rt, err := env.parseType(sf.Ret)
+		if err != nil {
+			return Val{}, err
+		}
+		ls := e.layout(rt)
+		if len(ls) != 1 {
+			return Val{}, fmt.Errorf("ghost %s: result must be scalar", sf.Name)
+		}
+		h := e.heapGet(env.st, "G_"+sf.Name, arrSort(SInt, ls[0].Sort))
+		return Val{Typ: rt, T: []Term{sel(h, key)}}, nil
+	}
 	if sf.Body != nil {
 		n := &specEnv{}
 		*n = *env
@@ -1408,6 +1442,22 @@ func (env *specEnv) readsHeaps(pat string) []string {
 	return e.heapsMatching(pat)
 }
 
+// ghostKey: the reference a ghost is attached to: pointer/map ref, slice backing array, interface payload.
+func ghostKey(v Val) (Term, bool) {
+	if v.T == nil {
+		return Term{}, false
+	}
+	switch v.Typ.Underlying().(type) {
+	case *types.Pointer, *types.Map, *types.Slice:
+		return v.T[0], true
+	case *types.Interface:
+		if len(v.T) == 2 {
+			return v.T[1], true
+		}
+	}
+	return Term{}, false
+}
+
 func firstTerm(v Val) string {
 	if len(v.T) > 0 {
 		return v.T[0].S
@@ -1422,6 +1472,42 @@ func (env *specEnv) havocTarget(x *Expr, st *State) error {
 	if x.Op == "ident" && x.Name == "anything" {
 		a.havocAll(st)
 		return nil
+	}
+	if x.Op == "ident" && x.Name == "ghosts" {
+		// every ghost family (library objects' abstract state)
+		for name, sf := range e.specFuncs {
+			if !sf.Ghost {
+				continue
+			}
+			rt, err := env.parseType(sf.Ret)
+			if err != nil {
+				return err
+			}
+			srt := arrSort(SInt, e.layout(rt)[0].Sort)
+			e.cur.heapSorts["G_"+name] = srt
+			e.heapReplace(st, "G_"+name, e.cur.log.fresh("G_"+name, srt))
+		}
+		return nil
+	}
+	if x.Op == "call" && x.Args[0].Op == "ident" {
+		if sf, ok := e.specFuncs[x.Args[0].Name]; ok && sf.Ghost && len(x.Args) == 2 {
+			v, err := env.eval(x.Args[1])
+			if err != nil {
+				return err
+			}
+			key, ok := ghostKey(v)
+			if !ok {
+				return fmt.Errorf("ghost target needs a reference")
+			}
+			rt, err := env.parseType(sf.Ret)
+			if err != nil {
+				return err
+			}
+			srt := arrSort(SInt, e.layout(rt)[0].Sort)
+			h := e.heapGet(st, "G_"+sf.Name, srt)
+			e.heapSet(st, "G_"+sf.Name, store(h, key, e.cur.log.fresh("gh", e.layout(rt)[0].Sort)))
+			return nil
+		}
 	}
 	if x.Op == "call" && x.Args[0].Op == "ident" && x.Args[0].Name == "all" {
 		for _, arg := range x.Args[1:] {
